@@ -1,7 +1,8 @@
 ----------------------------- MODULE MC_Pipeline -----------------------------
 (* Bounded model of one NewEpoch transaction: every fee state of two pools and  *)
 (* two vaults (zero / below / above the collection threshold), routes present,  *)
-(* absent or failing at execution, take rate off / zero / tiny / 10 % / 99 %.   *)
+(* absent or failing at execution, take rate off / zero / tiny / 10 % / 99 %,   *)
+(* a registered vault whose fee collection fails.                               *)
 (* The transaction is computed the way the code does it (collect, aggregate,    *)
 (* take rate, transfer) and the property's clauses are checked on the result;   *)
 (* every configuration is emitted as a schedule.                                *)
@@ -18,7 +19,9 @@ Init == cfg = [k \in {"none"} |-> 0] /\ done = FALSE
 Choose ==
   /\ ~done
   /\ \E p1 \in Pend, p2 \in Pend, v1 \in Pend, v2 \in {0, 7}, r \in RouteStates, act \in BOOLEAN, rate \in Rates, pre \in {0, 40} :
-       cfg' = [p1 |-> p1, p2 |-> p2, v1 |-> v1, v2 |-> v2, route |-> r, active |-> act, rate |-> rate, pre |-> pre]
+       \* broken: a third registered vault whose CollectProtocolFees fails (a fault in the collection step itself)
+       \E broken \in (IF v2 = 7 /\ pre = 40 THEN BOOLEAN ELSE {FALSE}) :
+       cfg' = [p1 |-> p1, p2 |-> p2, v1 |-> v1, v2 |-> v2, route |-> r, active |-> act, rate |-> rate, pre |-> pre, broken |-> broken]
   /\ done' = TRUE
 Next == Choose
 Spec == Init /\ [][Next]_<<cfg, done>>
@@ -45,7 +48,8 @@ After ==
                !.dao = [s.dao EXCEPT ![Dist] = takeAmt], !.history = takeAmt, !.dist = whale - takeAmt,
                \* conservation: what the route paid out came from a pool (outside this observation): model it as supply-neutral
                !.supply = s.supply]
-Reverts == cfg.route = "fails" /\ Before.col[Other] + CollectedInto(Before, Other, Kids) > COLLECT_MIN
+Reverts == \/ cfg.broken
+           \/ cfg.route = "fails" /\ Before.col[Other] + CollectedInto(Before, Other, Kids) > COLLECT_MIN
 
 RulesHold == (done /\ ~Reverts) => AllOk(EpochChecks(Before, After, Kids))
 Emit == done => PrintT(ToJson([k |-> "SCHED", cfg |-> cfg]))
